@@ -25,6 +25,8 @@ def main(argv=None):
     c.add_argument("--quiet", action="store_true")
     r = sub.add_parser("replay")
     r.add_argument("path")
+    r.add_argument("--history", action="store_true",
+                   help="run what the recording worker process had run before, then the case (used by replay itself)")
     sub.add_parser("list")
     s = sub.add_parser("selftest")
     s.add_argument("ids", nargs="*")
@@ -47,14 +49,45 @@ def main(argv=None):
             d = json.load(f)
         chk = load_check(d["property"], d.get("tier", "quick"), d.get("seed", 0))
         chk.prepare()
-        from .xplore import HarnessError
-        try:
-            vs = chk.replay(d["case"], d.get("choices"))
-        except HarnessError as e:
-            print("replay of %s diverged on this tree (%s): the recorded execution does not exist "
-                  "here, so the recorded violation does not reproduce" % (a.path, e))
-            return 0
-        keys = [v.key for v in vs]
+        from .xplore import HarnessError, Stats
+        vs, keys = [], []
+        if not a.history:
+            try:
+                vs = chk.replay(d["case"], d.get("choices"))
+            except HarnessError as e:
+                print("replay of %s diverged on this tree (%s): the recorded execution does not exist "
+                      "here, so the recorded violation does not reproduce" % (a.path, e))
+                return 0
+            keys = [v.key for v in vs]
+            if d["key"] not in keys and (d.get("worker_history") or isinstance(d.get("origin_case"), dict)):
+                # not reproduced from a fresh process.  State kept by the code under test at module or
+                # class level lives as long as the process: redo, in a NEW process, what the recording
+                # worker had done before (its earlier cases, then the whole case of the violation)
+                import subprocess
+                r2 = subprocess.run([sys.executable, "-m", "verif.cli", "replay", a.path, "--history"],
+                                    cwd=env.HOME, env=dict(os.environ), capture_output=True, text=True)
+                sys.stdout.write(r2.stdout)
+                return r2.returncode
+        else:
+            allc = chk.cases()
+            hist = d.get("worker_history") or []
+            for i in hist:
+                if 0 <= i < len(allc):
+                    try:
+                        chk.run_case(allc[i], Stats())
+                    except BaseException:   # noqa
+                        pass
+            print("(new process: after the %d cases the recording worker had run before)" % len(hist))
+            try:
+                if isinstance(d.get("origin_case"), dict):
+                    vs = [v for v in (chk.run_case(d["origin_case"], Stats()) or []) if v.key == d["key"]][:1]
+                if not vs:
+                    vs = chk.replay(d["case"], d.get("choices"))
+            except HarnessError:
+                vs = []
+            except BaseException:   # noqa
+                vs = []
+            keys = [v.key for v in vs]
         print("replay of %s: %d violation(s)" % (a.path, len(vs)))
         for v in vs:
             print("  key=%s" % v.key)
